@@ -120,6 +120,14 @@ CLAIMED = {
             "termination is checked as bounded liveness (validation-score call budget); alpha=0 may only end in a "
             "ValueError or a terminating path; running-best reading of the best-weights rule",
             "DESIGN.md section 3, C07"),
+    "C12": ("stateful / model-based property testing (Hypothesis RuleBasedStateMachine) over public call histories with "
+            "clone-and-repeat probes",
+            "One estimator per machine (all 18 + decorated variants) receives generated sequences of fit, fit_predict, "
+            "predict, predict_proba, score, path, set_params and clone on three datasets; probe rules run fit/path twice "
+            "in a row on the live object and once on a prior clone and compare every fitted attribute exactly; after "
+            "every rule caller arrays, get_params and clone/set_params round-trips are checked. Exploration.",
+            "integer random_state; decoration re-applied to clones; exact array equality",
+            "DESIGN.md section 3, C12"),
 }
 
 NOT_YET = {}
